@@ -500,6 +500,22 @@ pub fn build(id: &str, tier: &str, seed: u64, threads: usize) -> Option<Plan> {
                     }
                 }
             }
+            // duplicate-packets mode on the receiving side with windows that end exactly at block 65535 (51 and 255 divide
+            // 65535): every copy of that window's ACK is lost once / twice
+            for w in [51u16, 255] {
+                let n = 65535 + 2 * w as u64 + 1;
+                for (label, count) in [("none", 0u32), ("ack65535x2", 2), ("ack65535x4", 4), ("data65536x2", 2)] {
+                    let mut s = base_spec(&Cfg { role: Role::Recv, b: 8, w, len: (n - 1) * 8 + 3, hs: false, every: 0 }, seed);
+                    s.repeat = 2;
+                    s.label = format!("wrapdup:Rw{w}n{n}:{label}:N1");
+                    if label.starts_with("ack") {
+                        s.rules.push(Rule::DropFirst { dir: Dir::W2P, is_data: false, abs: 65535, count });
+                    } else if count > 0 {
+                        s.rules.push(Rule::DropFirst { dir: Dir::P2W, is_data: true, abs: 65536, count });
+                    }
+                    cases.push(s);
+                }
+            }
             // windows of more than 32768 blocks (more than half the 16-bit number space), fault-free, both roles
             for (n, w) in [(70001u64, 40000u16), (65537, 65535), (40003, 40000)] {
                 for role in [Role::Send, Role::Recv] {
